@@ -8,11 +8,6 @@ use core::cmp::Ordering;
 verus! {
 global size_of usize == 8;
 pub type NodeId = u64;
-pub type Cand = SessionElectionCandidate;
-
-/// stand-in for core::num::NonZeroU64 (R9): a value compared and ordered by its number
-#[derive(Clone, Copy, PartialEq, Eq, Structural)]
-pub struct Nonce { pub v: u64 }
 
 // ---------- trusted std semantics of the iterator chains (R22), stated over the closure's own postcondition ----------
 /// `v.into_iter().map(f).collect::<Vec<_>>()`
@@ -21,8 +16,6 @@ pub fn vx_map_collect<T, U, F: Fn(T) -> U>(v: Vec<T>, f: F) -> (r: Vec<U>)
     requires forall|x: T| f.requires((x,)),
     ensures forall|g: spec_fn(T) -> U| (forall|x: T, y: U| f.ensures((x,), y) ==> y == g(x)) ==> r@ == #[trigger] v@.map_values(g),
 { unimplemented!() }
-pub open spec fn any_of<T>(s: Seq<T>, p: spec_fn(T) -> bool) -> bool { exists|i: int| 0 <= i < s.len() && p(s[i]) }
-pub open spec fn all_of<T>(s: Seq<T>, p: spec_fn(T) -> bool) -> bool { forall|i: int| 0 <= i < s.len() ==> p(s[i]) }
 /// `v.iter().any(f)`
 #[verifier::external_body]
 pub fn vx_any<T, F: Fn(&T) -> bool>(v: &Vec<T>, f: F) -> (r: bool)
@@ -41,44 +34,12 @@ pub fn vx_retain<T, F: Fn(&T) -> bool>(v: &mut Vec<T>, f: F)
     requires forall|x: &T| f.requires((x,)),
     ensures forall|p: spec_fn(T) -> bool| (forall|x: &T, b: bool| f.ensures((x,), b) ==> b == p(*x)) ==> final(v)@ == #[trigger] old(v)@.filter(p),
 { unimplemented!() }
-/// least nonce of a sequence of optional nonces (None when there is none)
-pub open spec fn opt_min(s: Seq<Option<Nonce>>) -> Option<Nonce>
-    decreases s.len(),
-{
-    if s.len() == 0 { None } else {
-        let m = opt_min(s.drop_last());
-        match (m, s.last()) {
-            (None, x) => x,
-            (Some(a), None) => Some(a),
-            (Some(a), Some(b)) => if b.v < a.v { Some(b) } else { Some(a) },
-        }
-    }
-}
 /// `v.iter().filter_map(f).min()` for an `Option<NonZeroU64>`-valued `f`
 #[verifier::external_body]
 pub fn vx_filter_map_min<T, F: Fn(&T) -> Option<Nonce>>(v: &Vec<T>, f: F) -> (r: Option<Nonce>)
     requires forall|x: &T| f.requires((x,)),
     ensures forall|g: spec_fn(T) -> Option<Nonce>| (forall|x: &T, y: Option<Nonce>| f.ensures((x,), y) ==> y == g(*x)) ==> r == opt_min(#[trigger] v@.map_values(g)),
 { unimplemented!() }
-/// the derived `Ord` of ActorId: variants in declaration order, then fields lexicographically
-pub open spec fn id_lt(a: ActorId, b: ActorId) -> bool {
-    match (a, b) {
-        (ActorId::Local(x), ActorId::Local(y)) => x < y,
-        (ActorId::Local(_), ActorId::Remote { .. }) => true,
-        (ActorId::Remote { .. }, ActorId::Local(_)) => false,
-        (ActorId::Remote { node_id: n1, pid: p1 }, ActorId::Remote { node_id: n2, pid: p2 }) => n1 < n2 || (n1 == n2 && p1 < p2),
-    }
-}
-pub open spec fn id_min(s: Seq<ActorId>) -> Option<ActorId>
-    decreases s.len(),
-{
-    if s.len() == 0 { None } else {
-        match id_min(s.drop_last()) {
-            None => Some(s.last()),
-            Some(a) => if id_lt(s.last(), a) { Some(s.last()) } else { Some(a) },
-        }
-    }
-}
 /// `v.iter().map(f).min()` for an ActorId-valued `f`
 #[verifier::external_body]
 pub fn vx_map_min<T, F: Fn(&T) -> ActorId>(v: &Vec<T>, f: F) -> (r: Option<ActorId>)
@@ -119,44 +80,10 @@ pub fn vx_map_max<T, F: Fn(&T) -> ActorId>(v: &Vec<T>, f: F) -> (r: Option<Actor
     ensures forall|g: spec_fn(T) -> ActorId| (forall|x: &T, y: ActorId| f.ensures((x,), y) ==> y == g(*x)) ==> r == id_max(#[trigger] v@.map_values(g)),
         v@.len() > 0 ==> r is Some,
 { unimplemented!() }
-/// `a.cmp(b)` on `str`: an uninterpreted total order on strings (A-str)
-pub uninterp spec fn str_ord(a: Seq<char>, b: Seq<char>) -> Ordering;
 #[verifier::external_body]
 pub fn vx_str_cmp(a: &str, b: &str) -> (r: Ordering)
     ensures r == str_ord(a@, b@),
 { unimplemented!() }
-/// A-str: `str::cmp` is a total order: equal exactly on equal strings, antisymmetric
-#[verifier::external_body]
-pub broadcast proof fn axiom_str_ord(a: Seq<char>, b: Seq<char>)
-    ensures (#[trigger] str_ord(a, b) is Equal) == (a == b),
-        (str_ord(a, b) is Less) == (str_ord(b, a) is Greater),
-{}
-
-// ---------- the specification function ----------
-pub open spec fn is_srv() -> spec_fn(Cand) -> bool { |c: Cand| c.is_server }
-pub open spec fn is_cli() -> spec_fn(Cand) -> bool { |c: Cand| !c.is_server }
-pub open spec fn dir_is(p: bool) -> spec_fn(Cand) -> bool { |c: Cand| c.is_server == p }
-pub open spec fn nonce_is(m: Nonce) -> spec_fn(Cand) -> bool { |c: Cand| c.connection_id == Some(m) }
-pub open spec fn id_is(a: ActorId) -> spec_fn(Cand) -> bool { |c: Cand| c.actor_id == a }
-pub open spec fn nonce_of() -> spec_fn(Cand) -> Option<Nonce> { |c: Cand| c.connection_id }
-pub open spec fn id_of() -> spec_fn(Cand) -> ActorId { |c: Cand| c.actor_id }
-pub open spec fn ids_of(s: Seq<Cand>) -> Seq<ActorId> { s.map_values(id_of()) }
-/// which direction survives a simultaneous connect: the one dialled by the node whose name sorts last
-pub open spec fn preferred(me: Seq<char>, peer: Seq<char>) -> Option<bool> {
-    match str_ord(peer, me) { Ordering::Less => Some(false), Ordering::Greater => Some(true), Ordering::Equal => None }
-}
-pub open spec fn by_direction(me: Seq<char>, peer: Seq<char>, s: Seq<Cand>) -> Seq<Cand> {
-    if any_of(s, is_srv()) && any_of(s, is_cli()) && preferred(me, peer) is Some { s.filter(dir_is(preferred(me, peer).unwrap())) } else { s }
-}
-pub open spec fn by_nonce(s: Seq<Cand>) -> Seq<Cand> {
-    match opt_min(s.map_values(nonce_of())) { Some(m) => s.filter(nonce_is(m)), None => s }
-}
-pub open spec fn by_tie(s: Seq<Cand>) -> Seq<Cand> {
-    if s.len() > 1 && all_of(s, is_srv()) { s.filter(id_is(id_min(ids_of(s)).unwrap())) } else { s }
-}
-/// direction by name order, then the lowest nonce, then (accepting side only) the lowest actor id
-pub open spec fn elect_spec(me: Seq<char>, peer: Seq<char>, s: Seq<Cand>) -> Seq<Cand> {
-    by_tie(by_nonce(by_direction(me, peer, s)))
-}
 } // verus!
-// @include lemmas.rs
+// @include ../_common/elect_spec.rs
+// @include ../_common/elect_lemmas.rs
